@@ -216,7 +216,8 @@ class IntermediateCodeGen(AbstractCodeGen):
             baseSymType, baseSymSubtype = self.getBaseType(*symType)
             if isinstance(baseSymSubtype, list):
                 if isinstance(symSubtype, list):
-                    symSubtype += baseSymSubtype
+                    # not in place: the list belongs to the symbol table
+                    symSubtype = symSubtype + baseSymSubtype
                 else:
                     symSubtype = baseSymSubtype
 
